@@ -39,6 +39,7 @@ func checkC05(c *Ctx) {
 	ruleConfigOnlyFromParser(c, pf, "R5.5")
 	// necessary condition for the (otherwise undecided) Control Change value byte: positions within the reported range normalise into [-1,1]
 	ruleNormalisation(c, dv, "R5.6")
+	ruleConfigFieldsOnlyFromParser(c, pf, "R5.8")
 	// and the deadzone rescale divides (v -/+ dz) by (1 - dz) of the SAME dz: the shaped value stays within [-1,1]
 	c.importRules(rescaleRules, []string{"R6.10", "R6.11", "R6.13"}, "R5.7") // and the centre shift 2v-1 is applied to unsigned positions only
 	c.MinCount("R5.1", 3)
@@ -1088,4 +1089,69 @@ func closureCallSites(fn *ssa.Function) ([]ssa.CallInstruction, bool) {
 		return nil, false
 	}
 	return out, true
+}
+
+// ruleConfigFieldsOnlyFromParser: the field and container invariants of the byte proofs (defaults.channel in 1..16, velocity,
+// controller numbers, offsets ...) are established by the parser's validation. They hold for the configuration a device
+// is built from only if nothing between the parser and NewDevice writes those fields: no function outside package config
+// stores into a field of a configuration type (the device package is covered by R3.7).
+func ruleConfigFieldsOnlyFromParser(c *Ctx, pf *parserFacts, rule string) {
+	n, bad, badPos := 0, "", ""
+	badBounded := false
+	for _, fn := range c.P.Funcs {
+		top := topFunc(fn)
+		pp := funcPkgPath(top)
+		if pp == pkgConfig || pp == "" || strings.HasSuffix(pp, "/controls") {
+			continue
+		}
+		for _, b := range fn.Blocks {
+			for _, in := range b.Instrs {
+				st, ok := in.(*ssa.Store)
+				if !ok {
+					continue
+				}
+				fa, ok := st.Addr.(*ssa.FieldAddr)
+				if !ok {
+					continue
+				}
+				named, ok := deref(fa.X.Type()).(*types.Named)
+				if !ok || named.Obj().Pkg() == nil || named.Obj().Pkg().Path() != pkgConfig {
+					continue
+				}
+				if _, isStruct := named.Underlying().(*types.Struct); !isStruct {
+					continue
+				}
+				n++
+				f := fieldOfAddr(fa)
+				// a value that is itself within the range the parser guarantees for that field keeps the invariant
+				bounded := false
+				if r, has := configFieldBounds[named.Obj().Name()+"."+f.Name()]; has {
+					if ok, _ := pf.proveRange(st.Val, b, r.lo, r.hi, 0); ok {
+						continue
+					}
+					bounded = true
+				} else if !strings.Contains(pkgPathOf(top), "/cmd/") {
+					continue // a field no byte proof relies on, written by library code (R3.7 covers the device package)
+				}
+				if bad == "" || bounded && !badBounded {
+					badBounded = bounded
+					bad = fmt.Sprintf("%s stores into %s.%s outside the parser: the values a device is built from are then not the validated ones (e.g. a channel of 0 makes Device.channel 255 and the panic burst malformed)", shortFn(fn), named.Obj().Name(), f.Name())
+					badPos = c.P.Pos(st.Pos())
+				}
+			}
+		}
+	}
+	if bad != "" {
+		c.Bad(rule, "config-types/written-only-by-package-config", badPos, bad)
+	} else {
+		c.OK(rule, "config-types/written-only-by-package-config", "-", fmt.Sprintf("%d store(s) into fields of configuration types outside package config", n))
+	}
+}
+
+// configFieldBounds: the ranges the parser establishes and the byte proofs rely on.
+var configFieldBounds = map[string]rng{
+	"Defaults.Channel": {1, 16}, "Defaults.Velocity": {1, 127},
+	"Key.Note": {0, 127}, "Key.ChannelOffset": {0, 15},
+	"Analog.CC": {0, 119}, "Analog.CCNeg": {0, 119}, "Analog.Note": {0, 127}, "Analog.NoteNeg": {0, 127},
+	"Analog.ChannelOffset": {0, 15}, "Analog.ChannelOffsetNeg": {0, 15},
 }
